@@ -55,10 +55,10 @@ Fixpoint sinsert_front (g : lcfg) (e : ent) (l : lmap) : lmap :=
 Fixpoint ssort (g : lcfg) (l : lmap) : lmap :=
   match l with [] => [] | e :: r => sinsert_front g e (ssort g r) end.
 
-(* a walk: cleared lcursor, up to n calls of getnext over the entries matching `name` in lookup order; the i-th entry
+(* a walk: cleared cursor, up to n calls of getnext over the entries matching `name` in lookup order; the i-th entry
    handed out is removed when rm[i] is set.  Result: what is left (in lookup order), the entries handed out,
    whether a call reported the end. *)
-Fixpoint swalk (p : ent -> bool) (v : lmap) (n : nat) (rm : list bool) : lmap * list ent * bool * list bool :=
+Fixpoint swalk {A : Type} (p : A -> bool) (v : list A) (n : nat) (rm : list bool) : list A * list A * bool * list bool :=
   match v with
   | [] => ([], [], match n with O => false | S _ => true end, [])
   | e :: r =>
